@@ -67,6 +67,40 @@ static int64_t ext_va (int64_t n, ...) {
   return s;
 }
 
+/* (wave 6) native callees taking ONE structure / scalar by value: called by the prototype twins of tools/gen_c03_twins.py
+   through prototypes that differ only in the size / class / type of that argument.  Every argument byte is folded
+   (8-byte words, then the remaining bytes), as the MIR callees of the generator do. */
+static int64_t twin_fold (const void *p, int n) {
+  uint64_t r = 17, w;
+  const unsigned char *c = p;
+  int off = 0;
+  for (; off + 8 <= n; off += 8) {
+    memcpy (&w, c + off, 8);
+    r = r * 31 + w;
+  }
+  for (; off < n; off++) r = r * 31 + c[off];
+  log_val ((int64_t) r);
+  return (int64_t) r;
+}
+#define TWIN_S(name, fields) \
+  typedef struct { fields } name##_t; \
+  static int64_t name (name##_t s) { return twin_fold (&s, sizeof (s)); }
+TWIN_S (ext_s1, char c[1];) TWIN_S (ext_s4, char c[4];) TWIN_S (ext_s8, char c[8];) TWIN_S (ext_s12, char c[12];)
+TWIN_S (ext_s16, char c[16];) TWIN_S (ext_sf4, float a;) TWIN_S (ext_sd8, double a;) TWIN_S (ext_sd16, double a; double b;)
+TWIN_S (ext_sid, long a; double b;) TWIN_S (ext_sdi, double a; long b;)
+TWIN_S (ext_m17, char c[17];) TWIN_S (ext_m24, char c[24];) TWIN_S (ext_m40, char c[40];)
+static int64_t twin_scal (int64_t v) {
+  uint64_t r = 17 * 31 + (uint64_t) v;
+  log_val ((int64_t) r);
+  return (int64_t) r;
+}
+static int64_t ext_i64 (int64_t v) { return twin_scal (v); }
+static int64_t ext_i32 (int32_t v) { return twin_scal (v); }
+static int64_t ext_u8 (uint8_t v) { return twin_scal (v); }
+static int64_t ext_i16 (int16_t v) { return twin_scal (v); }
+static int64_t ext_f1 (float v) { return twin_scal ((int64_t) (v * 4.0f)); }
+static int64_t ext_d1 (double v) { return twin_scal ((int64_t) (v * 4.0)); }
+
 /* which function is this?  index of the function whose public address (item->addr recorded at load
    time) fn is, -1 if it is nobody's public address: a function has ONE address, whoever asks and whenever */
 static void *p_addr0_fwd (int i);
@@ -86,6 +120,25 @@ static void load_externals (void) {
   MIR_load_external (ctx, "ext_cbd", ext_cbd);
   MIR_load_external (ctx, "ext_d2", ext_d2);
   MIR_load_external (ctx, "ext_va", ext_va);
+  MIR_load_external (ctx, "ext_s1", ext_s1);
+  MIR_load_external (ctx, "ext_s4", ext_s4);
+  MIR_load_external (ctx, "ext_s8", ext_s8);
+  MIR_load_external (ctx, "ext_s12", ext_s12);
+  MIR_load_external (ctx, "ext_s16", ext_s16);
+  MIR_load_external (ctx, "ext_sf4", ext_sf4);
+  MIR_load_external (ctx, "ext_sd8", ext_sd8);
+  MIR_load_external (ctx, "ext_sd16", ext_sd16);
+  MIR_load_external (ctx, "ext_sid", ext_sid);
+  MIR_load_external (ctx, "ext_sdi", ext_sdi);
+  MIR_load_external (ctx, "ext_m17", ext_m17);
+  MIR_load_external (ctx, "ext_m24", ext_m24);
+  MIR_load_external (ctx, "ext_m40", ext_m40);
+  MIR_load_external (ctx, "ext_i64", ext_i64);
+  MIR_load_external (ctx, "ext_i32", ext_i32);
+  MIR_load_external (ctx, "ext_u8", ext_u8);
+  MIR_load_external (ctx, "ext_i16", ext_i16);
+  MIR_load_external (ctx, "ext_f1", ext_f1);
+  MIR_load_external (ctx, "ext_d1", ext_d1);
 }
 
 static void MIR_NO_RETURN prog_err_func (MIR_error_type_t t, const char *fmt, ...) {
